@@ -96,6 +96,13 @@ CHECKS = {
                      'serialization succeeded, to the given address with the serialization as body, basic_auth iff credentials, Ok only if every stage succeeded and the status is not 4xx/5xx, '
                      'Ok value = what from_str returned for the reply body. Generated method bodies are checked to forward client, address, credentials and request.',
                 note='trusted: reqwest semantics (one send = one POST, redirects, TLS, transport errors surface as Err), yaserde; stubs have no native replay'),
+    'C17': dict(engine='E2-smi', cat='other', design='4/C17',
+                technique='symbolic execution of the MIR of main and read_input_file_and_xsd_files_at_path over models of clap, std::path and std::fs; solver-concretised configuration selectors; native replay',
+                text='Claimed for the ordering / derivation logic of the CLI: path spelling, --output, pre-existing output and the stage at which generation fails are selectors; the MIR of '
+                     'zeep::main and the directory scan runs over a Path algebra per std\'s component semantics and a file-system map whose create truncates. Assertions: same bytes as the '
+                     'library for every spelling, at --output or <input>.rs, no stale tail; on failure a non-zero outcome and an untouched pre-existing output. Findings are replayed with the '
+                     'native binary in a scratch directory.',
+                note='trusted: models of clap / std::path / std::fs in lib/e2props.py; real OS behaviour (permissions, symlinks, non-UTF-8 names) is outside'),
 }
 
 NA = {
@@ -103,7 +110,7 @@ NA = {
     'C04': 'deserialization and round-trip are executed by yaserde derive expansion and xml-rs at run time (fmt/dyn/heap); CBMC cannot get through it and the MIR interpreter covers zeep, not yaserde',
     'C18': 'Send/Sync are auto-trait facts computed by rustc from the coroutine layout, not properties of executions a bounded symbolic run can falsify',
 }
-PENDING = ['C13', 'C14', 'C17']
+PENDING = ['C13', 'C14']
 
 
 def main():
